@@ -219,12 +219,18 @@ func execOp(o opSpec) uint64 {
 		return uint64(r.R)<<48 | uint64(r.G)<<32 | uint64(r.B)<<16 | uint64(r.A)
 	case opLineariseImage, opEncodeImage:
 		w, h := 2+int(o.A%3), 2+int(o.A>>8%4)
+		if o.A>>16%8 == 0 {
+			h = 65 + int(o.A>>20%80) // more rows than any block size a row distributor is likely to use
+		}
 		src := image.NewRGBA64(image.Rect(0, 0, w, h))
 		tape.NewRand(uint64(o.B)).Fill(src.Pix)
 		for i := 6; i < len(src.Pix); i += 8 {
 			src.Pix[i] = 0xFF // opaque-ish alpha keeps channels <= alpha mostly irrelevant
 		}
 		dst := image.NewRGBA64(src.Rect)
+		if o.A>>28&1 == 1 {
+			dst = src // in place, as the documentation allows: a row transformed twice shows in the values
+		}
 		par := 1 + int(o.C%4)
 		if o.Kind == opLineariseImage {
 			spaceFns[o.Space].linImg(dst, src, par)
